@@ -17,3 +17,4 @@ INVARIANT InvNoDecodeError
 INVARIANT InvPlainIffPrimitive
 INVARIANT InvEveryNestedWrapped
 INVARIANT InvKnownIsReal
+INVARIANT InvKnownOnlyKeys
